@@ -377,6 +377,27 @@ impl Report {
             n_files += 1;
         }
 
+        if let Ok(path) = std::env::var("KV_DUMP_FAILURES") {
+            let mut text = String::new();
+            for f in &self.failures {
+                text.push_str(&format!("{:?}\t{}\n", f.key, f.what.replace('\n', " ")));
+            }
+            let _ = fs::write(path, text);
+        }
+        // summary of failures by panic location (triage aid, also kept in the evidence)
+        let mut by_loc: BTreeMap<String, u64> = BTreeMap::new();
+        for f in &self.failures {
+            if let Some(i) = f.what.rfind(" @ ") {
+                let loc = f.what[i + 3..].split_whitespace().next().unwrap_or("").to_string();
+                *by_loc.entry(loc).or_default() += 1;
+            }
+        }
+        if !by_loc.is_empty() {
+            for (l, n) in &by_loc {
+                let _ = writeln!(out, "  panic-location {l}: {n} failing cases");
+            }
+            self.coverage.insert("failing_cases_by_panic_location".into(), json!(by_loc));
+        }
         let n_viol = violations.len();
         let wall = self.started.elapsed().as_secs_f64();
         self.coverage
